@@ -21,6 +21,9 @@ import (
 func PlayMulti(beh M, rng *rand.Rand, proj *Projection) ([][]M, error) {
 	cfg := M{"auth": "none", "tls": "nil", "params": M{"shared": "x"}, "version": "15", "mw": []any{"ok"}, "term": "ok", "limit": 65536}
 	cfg["_ext"] = I(beh, "_i") % 2 // every other execution runs with a type extension registered
+	if I(beh, "_i")%5 == 2 {
+		cfg["auth"] = "clear" // overlapping password logins of different users
+	}
 	if I(beh, "_i")%4 == 1 {
 		// earlier in the life of the process a connection carried only a CancelRequest (what client libraries
 		// send when a query times out): it leaves no trace on the connections served afterwards
@@ -65,6 +68,13 @@ func PlayMulti(beh M, rng *rand.Rand, proj *Projection) ([][]M, error) {
 	// startup: concurrently connecting users (sequential sends, each session comes up on its own)
 	for c := 0; c < nc; c++ {
 		send(c, M{"t": "Startup", "term": true, "kvs": []any{M{"k": "user", "v": fmt.Sprintf("user%d", c+1)}, M{"k": "database", "v": fmt.Sprintf("db%d", c+1)}}}, true)
+	}
+	if S(cfg, "auth") == "clear" {
+		// every connection has been asked for its password before the first one answers: each login is
+		// validated with its own user and database
+		for c := 0; c < nc; c++ {
+			send(c, M{"t": "p", "pw": "good"}, true)
+		}
 	}
 	group := func(c int, kind string) {
 		nid++
